@@ -197,6 +197,7 @@ func vmCorpus() []vmProg {
 		{"toplevel", "counter a\ncounter d\n/K1=(\\d+)/ {\n  a++\n}\nd++\nstop\n", true, ""},
 		{"powcaps", "gauge g\n/K1=(-?\\d+) K2=(-?\\d+)/ {\n  g = $1 ** $2\n}\n", true, ""},
 		{"floataddint", "gauge f\n/K1=(\\d+\\.\\d+) K2=(\\d+)/ {\n  f = $1\n  f += $2\n}\n", true, ""},
+		{"settimemix", "gauge h\ncounter c\n/K1=(\\d+)/ {\n  settime($1)\n}\n/K2=(\\d+)/ {\n  h = timestamp()\n  c++\n}\n", true, ""},
 		{"capother", "counter c by k\n/K1=(\\w+)/ {\n  c[$1]++\n} else {\n  c[$1]++\n}\n", true, ""},
 	}
 }
@@ -346,6 +347,7 @@ func init() {
 		Jobs: func(tier string) []JobDef {
 			jobs := checks["C15"].Jobs(tier)
 			jobs = append(jobs, vmJobs(tier, "VM04", "vmCheckNoFault", 2, nil)...)
+			jobs = append(jobs, vmJobs(tier, "VM05", "vmCheckHistory", 1, func(pr vmProg) bool { return pr.Name != "conv" })...)
 			jobs = append(jobs, loaderC14Jobs(tier)...)
 			jobs = append(jobs, loaderC26Jobs(tier)[1])
 			return jobs
